@@ -13,6 +13,7 @@ def _nontrivial(case, obs):
 
 
 PROP = {
+    "regen_files": ["GenLayoutDecls.v"],
     "num": 1,
     "runs": [{"tag": "c01", "bin": "c01"}],
     "mismatch_is_failing": True,
